@@ -89,7 +89,7 @@ theorem access_good (rules : Rules) : ∀ (fuel : Nat) (w : World) (k : Key), Fr
     | none =>
       simp only
       -- invariant of the fold over the nested calls
-      set w0 : World := { w with nextTmp := w.nextTmp + (rules.calls k.meth k.args).foldl (fun n c => max n c.recv) 0,
+      set w0 : World := { w with nextTmp := w.nextTmp + (rules.calls k.meth k.args (w.ver k.obj)).foldl (fun n c => max n c.recv) 0,
                                   misses := w.misses + 1 } with hw0
       have hf0 : Fresh w0 := hf
       have key : ∀ (calls : List Call) (acc : World × Nat),
@@ -116,11 +116,11 @@ theorem access_good (rules : Rules) : ∀ (fuel : Nat) (w : World) (k : Key), Fr
             simp only [hr, if_true] at this ⊢
             rw [this, hst]; exact Nat.min_self _
           · simp only [hr, if_false]; exact hst
-      have hres := key (rules.calls k.meth k.args) (w0, w0.ver k.obj) ⟨rfl, rfl, hf0, rfl⟩
+      have hres := key (rules.calls k.meth k.args (w.ver k.obj)) (w0, w0.ver k.obj) ⟨rfl, rfl, hf0, rfl⟩
       simp only at hres
       obtain ⟨hv, hc, hfr, hst⟩ := hres
       refine ⟨hv, hc, ?_, hst⟩
-      set r := (rules.calls k.meth k.args).foldl (fun (acc : World × Nat) c =>
+      set r := (rules.calls k.meth k.args (w.ver k.obj)).foldl (fun (acc : World × Nat) c =>
             let key : Key := ⟨if c.recv = 0 then k.obj else w.nextTmp + c.recv - 1, c.meth, c.args⟩
             let (w', s) := access rules fuel acc.1 key
             (w', if c.recv = 0 then min acc.2 s else acc.2)) (w0, w0.ver k.obj) with hr
@@ -195,7 +195,7 @@ theorem C19_history_independent (rules : Rules) (w : World) (ops : List Op) (hf 
 
 def w0 : World := World.init [(0, 1), (1, 1)]
 /-- adjacency (method 1) calls incidence (method 0) on self -/
-def r0 : Rules := [((1, 0), [⟨0, 0, 0⟩])]
+def r0 : Rules := [((1, 0, 0), [⟨0, 0, 0⟩]), ((1, 0, 1), [⟨0, 0, 0⟩]), ((1, 1, 0), [⟨0, 0, 0⟩]), ((1, 1, 1), [⟨0, 0, 0⟩])]
 
 /-- F11: query, modify in place, same query → the stale value (stamp 0 although the mesh has version 1) -/
 theorem C19_stale_lru_counterexample :
